@@ -3,9 +3,9 @@ package props
 import (
 	"math/rand"
 	"os"
+	"sort"
 	"strings"
 	"sync"
-	"sort"
 	"time"
 
 	"verif/internal/check"
